@@ -703,4 +703,413 @@ theorem rel_runSeq (ue : Bool) : ∀ (ops : List (KvOp ν)) {st : St ν} {s : St
     obtain ⟨h1, h2⟩ := rel_runSeq ue r (quiescent_step ue hq op) (rel_step ue hq h op)
     exact ⟨h1, ans_step ue h op, h2⟩
 
+/-! ### two-step bodies: prep outside the lock, commit under it -/
+
+theorem split_first_dot : ∀ (a b r r' : List Char), '.' ∉ a → '.' ∉ b → a ++ '.' :: r = b ++ '.' :: r' → a = b ∧ r = r'
+  | [], [], _, _, _, _, h => by simpa using h
+  | [], y :: b, _, _, _, hb, h => by
+    simp only [List.nil_append, List.cons_append, List.cons.injEq] at h
+    exact absurd (h.1 ▸ List.mem_cons_self ..) hb
+  | x :: a, [], _, _, ha, _, h => by
+    simp only [List.nil_append, List.cons_append, List.cons.injEq] at h
+    exact absurd (h.1 ▸ List.mem_cons_self ..) ha
+  | x :: a, y :: b, r, r', ha, hb, h => by
+    simp only [List.cons_append, List.cons.injEq] at h
+    obtain ⟨h1, h2⟩ := split_first_dot a b r r' (fun hm => ha (List.mem_cons_of_mem _ hm)) (fun hm => hb (List.mem_cons_of_mem _ hm)) h.2
+    exact ⟨by rw [h.1, h1], h2⟩
+
+theorem setExt_no_dot {n : String} (h : '.' ∉ n.toList) (e : String) : (setExt n e).toList = n.toList ++ '.' :: e.toList := by
+  simp [setExt, stemChars, extChars_no_dot h, String.toList_append]
+
+/-- tmp files of different counter values have different names -/
+theorem tmpPath_counter_inj {d d' : Key} {c c' : Nat} (hd : '.' ∉ d.2.2.toList) (hd' : '.' ∉ d'.2.2.toList)
+    (h : tmpPath d c = tmpPath d' c') : c = c' := by
+  have h3 : setExt d.2.2 (tmpExtOf c) = setExt d'.2.2 (tmpExtOf c') := by
+    simp only [tmpPath, Prod.mk.injEq] at h; exact h.2.2
+  have h4 := congrArg String.toList h3
+  rw [setExt_no_dot hd, setExt_no_dot hd'] at h4
+  obtain ⟨_, h5⟩ := split_first_dot _ _ _ _ hd hd' h4
+  have h6 : (toString c).toList = (toString c').toList := by
+    simp only [tmpExtOf, String.toList_append] at h5
+    exact List.append_cancel_right h5
+  have h7 : Nat.repr c = Nat.repr c' := String.toList_inj.mp h6
+  exact Nat.repr_inj.mp h7
+
+theorem no_dot_not_artifact {n : String} (h : '.' ∉ n.toList) : isArtifact n = false := by
+  simp [isArtifact, extChars_no_dot h]
+
+/-- effect of a whole body on any path that is neither its destination nor its tmp file -/
+theorem get_exec_other (st : St ν) (x : Pending ν) (q : Key) (h1 : q ≠ x.dest) (h2 : q ≠ tmpPath x.dest st.tmpCounter) :
+    (exec st x).fs.get q = st.fs.get q := by
+  unfold exec bodyOps
+  cases hb : x.body with
+  | write v =>
+    simp only
+    cases hs : staleNow st x
+    · simp only [List.cons_append, List.nil_append, applyOps_cons, applyOps_nil, FOp.apply, Bool.false_eq_true, if_false,
+        Store.get_put_same]
+      simp [Store.get_put_ne _ _ h1, Store.get_del_ne _ h2, Store.get_put_ne _ _ h2]
+    · simp [applyOps_cons, applyOps_nil, FOp.apply, Store.get_del_ne _ h2, Store.get_put_ne _ _ h2]
+  | remove lz =>
+    simp only
+    cases hs : staleNow st x
+    · simp only [Bool.false_eq_true, if_false]
+      cases hg : st.fs.get x.dest with
+      | none => simp [applyOps_nil]
+      | some c => cases lz <;> simp [applyOps_cons, applyOps_nil, FOp.apply, Store.get_del_ne _ h1]
+    · simp [applyOps_nil]
+
+/-- all operations a schedule mentions -/
+def pendsOf : List (Step2 ν) → List (Pending ν)
+  | [] => []
+  | .commit x :: r => x :: pendsOf r
+  | .prep x :: r => x :: pendsOf r
+
+/-- what the operations of a schedule must satisfy: dot-free destination names (valid keys), and one
+    version per operation -/
+def GoodPends (l : List (Pending ν)) : Prop :=
+  (∀ x ∈ l, '.' ∉ x.dest.2.2.toList) ∧ (∀ x ∈ l, ∀ y ∈ l, x.version = y.version → x = y)
+
+/-- every prepared operation still has its own, completely written tmp file -/
+structure Inv2 (l : List (Pending ν)) (s : St2 ν) : Prop where
+  intact : ∀ e ∈ s.prepared, e.1 ∈ l ∧ ∃ v c, e.1.body = .write v ∧ c < s.st.tmpCounter ∧ e.2 = tmpPath e.1.dest c ∧
+    s.st.fs.get e.2 = some (.data v)
+  distinct : s.prepared.Pairwise (fun a b => a.2 ≠ b.2)
+
+theorem tmpOf_some {l : List (Pending ν)} (hg : GoodPends l) {s : St2 ν} (hi : Inv2 l s) {x : Pending ν} (hx : x ∈ l) {tmp : Key}
+    (h : tmpOf s x = some tmp) : (x, tmp) ∈ s.prepared := by
+  unfold tmpOf at h
+  cases hf : s.prepared.find? (fun e => e.1.version == x.version) with
+  | none => rw [hf] at h; cases h
+  | some e =>
+    rw [hf] at h
+    simp only [Option.map_some, Option.some.injEq] at h
+    have hm := List.mem_of_find?_eq_some hf
+    have hv : e.1.version = x.version := by simpa using List.find?_some hf
+    have : e.1 = x := hg.2 _ (hi.intact e hm).1 _ hx hv
+    rw [← this, ← h]; exact hm
+
+theorem tmpOf_none {s : St2 ν} {x : Pending ν} (h : tmpOf s x = none) : ∀ e ∈ s.prepared, e.1.version ≠ x.version := by
+  unfold tmpOf at h
+  cases hf : s.prepared.find? (fun e => e.1.version == x.version) with
+  | some e => rw [hf] at h; cases h
+  | none =>
+    intro e he hv
+    have := List.find?_eq_none.mp hf e he
+    simp [hv] at this
+
+theorem commit2_locks (s : St2 ν) (x : Pending ν) : (commit2 s x).st.locks = (exec s.st x).locks := by
+  unfold commit2
+  split <;> rfl
+
+theorem lockOf_commit2 (s : St2 ν) (x : Pending ν) (d : Key) : lockOf (commit2 s x).st d = lockOf (exec s.st x) d := by
+  unfold lockOf; rw [commit2_locks]
+
+/-- the committing half has, on the non-artifact paths, exactly the effect of the whole body -/
+theorem get_commit2 {l : List (Pending ν)} (hg : GoodPends l) {s : St2 ν} (hi : Inv2 l s) {x : Pending ν} (hx : x ∈ l)
+    (p : Key) (hp : isArtifact p.2.2 = false) :
+    (commit2 s x).st.fs.get p = if p = x.dest ∧ staleNow s.st x = false then x.result else s.st.fs.get p := by
+  unfold commit2
+  cases hb : x.body with
+  | remove lz => simp only; rw [get_exec _ _ p hp]
+  | write v =>
+    cases ht : tmpOf s x with
+    | none => simp only; rw [get_exec _ _ p hp]
+    | some tmp =>
+      simp only
+      have hm := tmpOf_some hg hi hx ht
+      obtain ⟨_, v', c, hb', _, htmp, hget⟩ := hi.intact _ hm
+      simp only at hb' htmp hget
+      rw [hb] at hb'
+      injection hb' with hv
+      subst hv
+      have hne : p ≠ tmp := by rw [htmp]; exact ne_of_artifact hp (tmp_artifact _ _)
+      cases hs : staleNow s.st x
+      · simp only [Bool.false_eq_true, if_false, applyOps_cons, applyOps_nil, FOp.apply, hget, and_true]
+        by_cases hpd : p = x.dest
+        · simp [hpd, Store.get_put_same, Pending.result, hb]
+        · simp [hpd, Store.get_put_ne _ _ hpd, Store.get_del_ne _ hne]
+      · simp [applyOps_cons, applyOps_nil, FOp.apply, Store.get_del_ne _ hne]
+
+theorem get_prep2 (s : St2 ν) (x : Pending ν) (p : Key) (hp : isArtifact p.2.2 = false) :
+    (prep2 s x).st.fs.get p = s.st.fs.get p ∧ (prep2 s x).st.locks = s.st.locks := by
+  unfold prep2
+  split
+  · have hne : p ≠ tmpPath x.dest s.st.tmpCounter := ne_of_artifact hp (tmp_artifact _ _)
+    simp [applyOps_cons, applyOps_nil, FOp.apply, Store.get_put_ne _ _ hne]
+  · exact ⟨rfl, rfl⟩
+
+theorem inv2_prep {l : List (Pending ν)} (hg : GoodPends l) {s : St2 ν} (hi : Inv2 l s) {x : Pending ν} (hx : x ∈ l) :
+    Inv2 l (prep2 s x) := by
+  unfold prep2
+  split
+  · rename_i v hb ht
+    have hnew : ∀ e ∈ s.prepared, e.2 ≠ tmpPath x.dest s.st.tmpCounter := by
+      intro e he heq
+      obtain ⟨hel, _, c, _, hc, htmp, _⟩ := hi.intact e he
+      rw [htmp] at heq
+      have := tmpPath_counter_inj (hg.1 _ hel) (hg.1 _ hx) heq
+      omega
+    constructor
+    · intro e he
+      rcases List.mem_cons.mp he with rfl | he
+      · refine ⟨hx, v, s.st.tmpCounter, hb, Nat.lt_succ_self _, rfl, ?_⟩
+        simp [applyOps_cons, applyOps_nil, FOp.apply, Store.get_put_same]
+      · obtain ⟨hel, v', c, hb', hc, htmp, hget⟩ := hi.intact e he
+        refine ⟨hel, v', c, hb', Nat.lt_succ_of_lt hc, htmp, ?_⟩
+        simp only [applyOps_cons, applyOps_nil, FOp.apply]
+        rw [Store.get_put_ne _ _ (hnew e he), Store.get_put_ne _ _ (hnew e he)]; exact hget
+    · exact List.Pairwise.cons (fun e he => (hnew e he).symm) hi.distinct
+  · exact hi
+
+theorem inv2_commit {l : List (Pending ν)} (hg : GoodPends l) {s : St2 ν} (hi : Inv2 l s) {x : Pending ν} (hx : x ∈ l) :
+    Inv2 l (commit2 s x) := by
+  have hdest : isArtifact x.dest.2.2 = false := no_dot_not_artifact (hg.1 _ hx)
+  have hexec : tmpOf s x = none ∨ (∃ lz, x.body = .remove lz) → Inv2 l { s with st := exec s.st x } := by
+    intro hcase
+    constructor
+    · intro e he
+      obtain ⟨hel, v', c, hb', hc, htmp, hget⟩ := hi.intact e he
+      have h1 : e.2 ≠ x.dest := by rw [htmp]; exact (ne_of_artifact hdest (tmp_artifact _ _)).symm
+      have h2 : e.2 ≠ tmpPath x.dest s.st.tmpCounter := by
+        intro heq; rw [htmp] at heq
+        have := tmpPath_counter_inj (hg.1 _ hel) (hg.1 _ hx) heq
+        omega
+      refine ⟨hel, v', c, hb', ?_, htmp, ?_⟩
+      · show c < (exec s.st x).tmpCounter
+        unfold exec; simp only; split <;> omega
+      · show (exec s.st x).fs.get e.2 = _
+        rw [get_exec_other _ _ _ h1 h2]; exact hget
+    · exact hi.distinct
+  unfold commit2
+  cases hb : x.body with
+  | remove lz => exact hexec (Or.inr ⟨lz, hb⟩)
+  | write v =>
+    cases ht : tmpOf s x with
+    | none => exact hexec (Or.inl ht)
+    | some tmp =>
+      simp only
+      have hm := tmpOf_some hg hi hx ht
+      obtain ⟨_, v0, c0, _, _, htmp0, hget0⟩ := hi.intact _ hm
+      simp only at htmp0 hget0
+      constructor
+      · intro e he
+        have he' : e ∈ s.prepared := (List.mem_filter.mp he).1
+        have hver : e.1.version ≠ x.version := by simpa using (List.mem_filter.mp he).2
+        obtain ⟨hel, v', c, hb', hc, htmp, hget⟩ := hi.intact e he'
+        have hne : e.2 ≠ tmp := by
+          intro heq
+          have h1 : e = (x, tmp) ∨ e ≠ (x, tmp) := Classical.em _
+          rcases h1 with h1 | h1
+          · rw [h1] at hver; exact hver rfl
+          · -- two different entries with the same tmp contradict `distinct`
+            have := hi.distinct
+            rw [List.pairwise_iff_forall_sublist] at this
+            rcases List.mem_iff_getElem.mp he' with ⟨i, hi1, hi2⟩
+            rcases List.mem_iff_getElem.mp hm with ⟨j, hj1, hj2⟩
+            have hij : i ≠ j := by intro h; subst h; rw [hi2] at hj2; exact h1 hj2
+            rcases Nat.lt_or_gt_of_ne hij with hlt | hgt
+            · have := List.pairwise_iff_getElem.mp hi.distinct i j hi1 hj1 hlt
+              rw [hi2, hj2] at this; exact this heq
+            · have := List.pairwise_iff_getElem.mp hi.distinct j i hj1 hi1 hgt
+              rw [hi2, hj2] at this; exact this heq.symm
+        have hned : e.2 ≠ x.dest := by rw [htmp]; exact (ne_of_artifact hdest (tmp_artifact _ _)).symm
+        refine ⟨hel, v', c, hb', hc, htmp, ?_⟩
+        cases hs : staleNow s.st x
+        · simp only [Bool.false_eq_true, if_false, applyOps_cons, applyOps_nil, FOp.apply, hget0]
+          rw [Store.get_put_ne _ _ hned, Store.get_del_ne _ hne]; exact hget
+        · simp only [if_true, applyOps_cons, applyOps_nil, FOp.apply]
+          rw [Store.get_del_ne _ hne]; exact hget
+      · exact List.Pairwise.sublist List.filter_sublist hi.distinct
+
+theorem prep2_locks (s : St2 ν) (x : Pending ν) : (prep2 s x).st.locks = s.st.locks := by
+  unfold prep2; split <;> rfl
+
+theorem lockOf_prep2 (s : St2 ν) (x : Pending ν) (d : Key) : lockOf (prep2 s x).st d = lockOf s.st d := by
+  unfold lockOf; rw [prep2_locks]
+
+theorem run2_reg {l : List (Pending ν)} (hg : GoodPends l) : ∀ (steps : List (Step2 ν)) (s : St2 ν), Inv2 l s →
+    (∀ x ∈ pendsOf steps, x ∈ l) → LocksOk s.st (commitsOf steps) → ∀ d, isArtifact d.2.2 = false →
+    (run2 s steps).st.fs.get d = ((onDest d (commitsOf steps)).foldl reg ((lockOf s.st d).lastWritten, s.st.fs.get d)).2 ∧
+    (lockOf (run2 s steps).st d).refs = 0
+  | [], s, _, _, hl, d, _ => by
+    refine ⟨rfl, ?_⟩
+    have := hl d
+    simpa [onDest, commitsOf, run2] using this
+  | .prep x :: rest, s, hi, hp, hl, d, hd => by
+    have hx : x ∈ l := hp x (by simp [pendsOf])
+    have hp' : ∀ y ∈ pendsOf rest, y ∈ l := fun y hy => hp y (by simp [pendsOf, hy])
+    have hl' : LocksOk (prep2 s x).st (commitsOf rest) := by
+      intro d'; rw [lockOf_prep2]; exact hl d'
+    have ih := run2_reg hg rest (prep2 s x) (inv2_prep hg hi hx) hp' hl' d hd
+    rw [lockOf_prep2, (get_prep2 s x d hd).1] at ih
+    exact ih
+  | .commit x :: rest, s, hi, hp, hl, d, hd => by
+    have hx : x ∈ l := hp x (by simp [pendsOf])
+    have hp' : ∀ y ∈ pendsOf rest, y ∈ l := fun y hy => hp y (by simp [pendsOf, hy])
+    have hl0 : LocksOk s.st (x :: commitsOf rest) := hl
+    have hl' : LocksOk (commit2 s x).st (commitsOf rest) := by
+      intro d'
+      rw [lockOf_commit2]
+      by_cases h : d' = x.dest
+      · have h0 := hl0 x.dest
+        rw [onDest_cons_same] at h0
+        simp only [List.length_cons] at h0
+        rw [h, lockOf_exec_same]
+        by_cases h1 : (lockOf s.st x.dest).refs ≤ 1
+        · simp only [h1, if_true]; omega
+        · simp only [h1, if_false]; omega
+      · rw [lockOf_exec_ne s.st x h, hl0 d', onDest_cons_ne h]
+    have ih := run2_reg hg rest (commit2 s x) (inv2_commit hg hi hx) hp' hl' d hd
+    show (run2 (commit2 s x) rest).st.fs.get d = ((onDest d (x :: commitsOf rest)).foldl reg _).2 ∧ (lockOf (run2 (commit2 s x) rest).st d).refs = 0
+    refine ⟨?_, ih.2⟩
+    rw [ih.1]
+    by_cases h : d = x.dest
+    · subst h
+      rw [onDest_cons_same, List.foldl_cons, get_commit2 hg hi hx x.dest hd, lockOf_commit2, lockOf_exec_same]
+      have h0 := hl0 x.dest
+      rw [onDest_cons_same] at h0
+      simp only [List.length_cons] at h0
+      have hreg : reg ((lockOf s.st x.dest).lastWritten, s.st.fs.get x.dest) x =
+          (if staleNow s.st x then (lockOf s.st x.dest).lastWritten else x.version,
+           if x.dest = x.dest ∧ staleNow s.st x = false then x.result else s.st.fs.get x.dest) := by
+        unfold reg staleNow
+        cases isStaleVersion x.version (lockOf s.st x.dest).lastWritten <;> simp
+      by_cases h1 : (lockOf s.st x.dest).refs ≤ 1
+      · have : onDest x.dest (commitsOf rest) = [] := List.eq_nil_of_length_eq_zero (by omega)
+        simp only [this, List.foldl_nil, hreg]
+      · simp only [h1, if_false, hreg]
+    · rw [onDest_cons_ne h, lockOf_commit2, lockOf_exec_ne s.st x h, get_commit2 hg hi hx d hd]
+      simp [h]
+
+/-- a reader never finds a half-written file at a non-artifact path, at any point of any schedule -/
+theorem run2_no_torn_key {l : List (Pending ν)} (hg : GoodPends l) : ∀ (steps : List (Step2 ν)) (s : St2 ν), Inv2 l s →
+    (∀ x ∈ pendsOf steps, x ∈ l) → ∀ p, isArtifact p.2.2 = false → s.st.fs.get p ≠ some .torn →
+    (run2 s steps).st.fs.get p ≠ some .torn
+  | [], _, _, _, _, _, h => h
+  | .prep x :: rest, s, hi, hpd, p, hp, h => by
+    have hx : x ∈ l := hpd x (by simp [pendsOf])
+    refine run2_no_torn_key hg rest (prep2 s x) (inv2_prep hg hi hx) (fun y hy => hpd y (by simp [pendsOf, hy])) p hp ?_
+    rw [(get_prep2 s x p hp).1]; exact h
+  | .commit x :: rest, s, hi, hpd, p, hp, h => by
+    have hx : x ∈ l := hpd x (by simp [pendsOf])
+    refine run2_no_torn_key hg rest (commit2 s x) (inv2_commit hg hi hx) (fun y hy => hpd y (by simp [pendsOf, hy])) p hp ?_
+    rw [get_commit2 hg hi hx p hp]
+    split
+    · unfold Pending.result; cases x.body <;> simp
+    · exact h
+
+/-- the register folded over ANY permutation of the issued operations yields the last issued one -/
+theorem reg_perm_last (ue : Bool) (fs0 : FS ν) (ops : List (KvOp ν)) (π : List (Pending ν))
+    (hπ : π.Perm (issueAll ue (fresh fs0) ops).2) (d : Key) (v0 : Option (Content ν)) :
+    ((onDest d π).foldl reg (0, v0)).2 =
+      match (onDest d (issueAll ue (fresh fs0) ops).2).getLast? with
+      | none => v0
+      | some x => x.result := by
+  obtain ⟨_, _, _, h4, h5⟩ := issueAll_spec ue ops (fresh fs0)
+  have hperm : (onDest d π).Perm (onDest d (issueAll ue (fresh fs0) ops).2) := hπ.filter _
+  cases hlast : (onDest d (issueAll ue (fresh fs0) ops).2).getLast? with
+  | none =>
+    have hnil : onDest d (issueAll ue (fresh fs0) ops).2 = [] := List.getLast?_eq_none_iff.mp hlast
+    rw [hnil] at hperm
+    rw [List.Perm.eq_nil hperm]; rfl
+  | some x =>
+    obtain ⟨pre, hpre⟩ := List.getLast?_eq_some_iff.mp hlast
+    have hpw : (onDest d (issueAll ue (fresh fs0) ops).2).Pairwise (fun a b => a.version < b.version) :=
+      List.Pairwise.sublist List.filter_sublist h5
+    rw [hpre, List.pairwise_append] at hpw
+    have hmemP : ∀ y, y ∈ onDest d π → y ∈ pre ∨ y = x := by
+      intro y hy
+      have := hperm.mem_iff.mp hy
+      rw [hpre] at this
+      simpa using this
+    have hx : x ∈ onDest d π := by
+      apply hperm.mem_iff.mpr; rw [hpre]; simp
+    have hxP : x ∈ (issueAll ue (fresh fs0) ops).2 := by
+      have : x ∈ onDest d (issueAll ue (fresh fs0) ops).2 := by rw [hpre]; simp
+      exact (List.mem_filter.mp this).1
+    have hpos : 0 < x.version := by
+      have := (h4 x hxP).1
+      have h1v : (fresh fs0).nextVersion = 1 := rfl
+      omega
+    rw [foldl_reg_max (onDest d π) 0 _ x hx ?_ ?_ hpos]
+    · intro y hy
+      rcases hmemP y hy with h | h
+      · exact Nat.le_of_lt (hpw.2.2 y h x (by simp))
+      · rw [h]; exact Nat.le_refl _
+    · intro y hy hv
+      rcases hmemP y hy with h | h
+      · have := hpw.2.2 y h x (by simp); omega
+      · exact h
+
+/-- the operations `issueAll` hands out are good: valid destinations, one version each -/
+theorem goodPends_issueAll (ue : Bool) (fs0 : FS ν) (ops : List (KvOp ν)) : GoodPends (issueAll ue (fresh fs0) ops).2 := by
+  obtain ⟨_, _, _, h4, h5⟩ := issueAll_spec ue ops (fresh fs0)
+  constructor
+  · intro x hx
+    obtain ⟨_, k, hk, hd⟩ := h4 x hx
+    rw [hd]; exact validStr_no_dot (validKey_strs hk).2.2
+  · intro x hx y hy hv
+    rcases List.mem_iff_getElem.mp hx with ⟨i, hi1, hi2⟩
+    rcases List.mem_iff_getElem.mp hy with ⟨j, hj1, hj2⟩
+    by_cases hij : i = j
+    · subst hij; rw [← hi2, ← hj2]
+    · rcases Nat.lt_or_gt_of_ne hij with hlt | hgt
+      · have := List.pairwise_iff_getElem.mp h5 i j hi1 hj1 hlt
+        rw [hi2, hj2] at this; omega
+      · have := List.pairwise_iff_getElem.mp h5 j i hj1 hi1 hgt
+        rw [hi2, hj2] at this; omega
+
+/-- running a body in one go is preparing and committing it -/
+theorem exec_eq_prep_commit (st : St ν) (x : Pending ν) :
+    (commit2 (prep2 ⟨st, []⟩ x) x).st.fs = (exec st x).fs ∧ (commit2 (prep2 ⟨st, []⟩ x) x).st.locks = (exec st x).locks ∧
+    (commit2 (prep2 ⟨st, []⟩ x) x).st.tmpCounter = (exec st x).tmpCounter ∧ (commit2 (prep2 ⟨st, []⟩ x) x).prepared = [] := by
+  cases hb : x.body with
+  | remove lz => simp [prep2, commit2, hb, tmpOf]
+  | write v =>
+    have hs : staleNow { st with fs := applyOps st.fs [.create (tmpPath x.dest st.tmpCounter), .writeAll (tmpPath x.dest st.tmpCounter) v, .fsync (tmpPath x.dest st.tmpCounter)], tmpCounter := st.tmpCounter + 1 } x = staleNow st x := rfl
+    simp only [prep2, hb, tmpOf, List.find?_nil, Option.map_none, commit2, List.find?_cons, beq_self_eq_true, Option.map_some, hs]
+    refine ⟨?_, rfl, ?_, ?_⟩
+    · simp only [exec, bodyOps, hb]
+      cases staleNow st x <;> simp [applyOps]
+    · simp [exec, hb]
+    · simp
+
+/-! ### the sync API, one call after the other, is "last issued wins" too -/
+
+theorem runSeq_last (ue : Bool) (d : Key) (hd : isArtifact d.2.2 = false) : ∀ (ops : List (KvOp ν)) (st st2 : St ν), Quiescent st →
+    (runSeq ue st ops).fs.get d =
+      match (onDest d (issueAll ue st2 ops).2).getLast? with
+      | none => st.fs.get d
+      | some x => x.result
+  | [], _, _, _ => by simp [runSeq, issueAll, onDest]
+  | op :: r, st, st2, hq => by
+    have ih := runSeq_last ue d hd r (step ue st op).1
+    show (runSeq ue (step ue st op).1 r).fs.get d = _
+    cases hm : mutOf ue op with
+    | none =>
+      have h1 : issueAll ue st2 (op :: r) = issueAll ue st2 r := by simp [issueAll, hm]
+      have h2 : (step ue st op).1 = st := by rw [step_state, hm]
+      rw [h1, ih st2 (quiescent_step ue hq op), h2]
+    | some db =>
+      obtain ⟨d', b⟩ := db
+      have h1 : issueAll ue st2 (op :: r) =
+          ((issueAll ue (issue st2 d' b).1 r).1, (issue st2 d' b).2 :: (issueAll ue (issue st2 d' b).1 r).2) := by
+        simp [issueAll, hm]
+      have h2 : (step ue st op).1 = exec (issue st d' b).1 (issue st d' b).2 := by rw [step_state, hm]
+      rw [h1, ih (issue st2 d' b).1 (quiescent_step ue hq op), h2, get_step_mut hq d' b d hd]
+      simp only
+      by_cases hdd : d = d'
+      · subst hdd
+        have : onDest d ((issue st2 d b).2 :: (issueAll ue (issue st2 d b).1 r).2) =
+            (issue st2 d b).2 :: onDest d (issueAll ue (issue st2 d b).1 r).2 := onDest_cons_same (issue st2 d b).2 _
+        rw [this, List.getLast?_cons]
+        cases (onDest d (issueAll ue (issue st2 d b).1 r).2).getLast? with
+        | none => simp [Pending.result, issue]
+        | some y => simp
+      · have : onDest d ((issue st2 d' b).2 :: (issueAll ue (issue st2 d' b).1 r).2) =
+            onDest d (issueAll ue (issue st2 d' b).1 r).2 := onDest_cons_ne (x := (issue st2 d' b).2) hdd _
+        rw [this]
+        simp [hdd]
+
 end Ldk.Fs
